@@ -58,8 +58,12 @@ Definition expected_structs : list (string * string * list (string * string * st
    ("yrx_rule_iter_metadata", "YRX_METADATA_BYTES",
       [("yrx_rule_iter_metadata", "YRX_METADATA_BYTES", "length", "v.len()");
        ("yrx_rule_iter_metadata", "YRX_METADATA_BYTES", "data", "v.as_ptr()")])].
+(* the literals of a structure in a function have exactly these field expressions (a structure may be
+   built at several places of the function) *)
 Definition structs_ok : bool :=
-  forallb (fun e => let '(f, s, rows) := e in list_eqb eq4 (struct_of_fn f s) rows) expected_structs.
+  forallb (fun e => let '(f, s, rows) := e in
+                    forallb (fun r => existsb (eq4 r) rows) (struct_of_fn f s) &&
+                    forallb (fun r => existsb (eq4 r) (struct_of_fn f s)) rows) expected_structs.
 
 (* every YRX_BUFFER takes pointer and length from the same vector *)
 Definition buffer_rows (f v : string) : list (string * string * string * string) :=
@@ -113,7 +117,12 @@ Definition meta_ok : bool :=
   nodup_str (map (fun a => snd (fst (fst a))) meta_arms) &&
   forallb (fun a => existsb (String.eqb (snd (fst (fst a)))) metadata_type_tags) meta_arms &&
   nodup_str (map (fun a => snd (fst a)) meta_arms) &&
-  nodup_str metadata_type_tags.
+  nodup_str metadata_type_tags &&
+  (* the String arm converts with CString::new(v).unwrap(), which panics (= aborts the process at the
+     extern "C" boundary) on a string containing NUL: the arm must be preceded by the guarded arm
+     that exposes such a string as bytes (which carry their length), and that is the only guarded arm *)
+  list_eqb eq5 meta_guarded_arms
+    [("String", "v.contains('__')", "YRX_BYTES", "bytes", "YRX_METADATA_BYTES{length:v.len(),data:v.as_ptr(),}")].
 
 (* --- globals: yrx_{compiler_define,scanner_set}_global_<t> passes a value of type t on --- *)
 Definition expected_setter (suffix : string) : option (string * string) :=
